@@ -177,6 +177,12 @@ def plan(tier, seed):
         sids = [e["id"] for e in G.flatten(p)["elems"] if e["kind"] == "scenario"]
         return [dict(c, names=[i for i in sids if rnd.random() < 0.5]) if rnd.random() < prob else c for c in cfgs]
 
+    def with_literal(p, prob):
+        """some programs: outline steps whose text is the same in all rows are written without placeholder"""
+        if rnd.random() < prob:
+            p["literal_steps"] = True
+        return p
+
     def with_hdronly(p, prob):
         """some programs: every outline has an additional Examples table without rows"""
         if rnd.random() < prob:
@@ -271,7 +277,7 @@ def plan(tier, seed):
         for p in G.family_scen(2):
             out.append((with_o2(p), [G.cfg(), rcfg()], rfaults(p, 2)))
         for p in G.family_tree(rnd, 260):
-            p = with_hdronly(with_hookcl(with_skips(with_o2(p), 0.2), 0.3), 0.2)
+            p = with_literal(with_hdronly(with_hookcl(with_skips(with_o2(p), 0.2), 0.3), 0.2), 0.3)
             out.append((p, with_names(p, [dict(c, retry=False) for c in (rcfg(), rcfg())] if p.get("skips") else [rcfg(), rcfg()], 0.2), rfaults(p, 2)))
         for p in G.family_big(rnd, 40):
             out.append((with_o2(p), [rcfg()], rfaults(p, 2)))
@@ -300,7 +306,7 @@ def plan(tier, seed):
                     G.cfg(show_skipped=False, capture=(alt % 2 == 0, alt % 3 == 0, alt % 5 == 0))]
             out.append((p, cfgs, [[0, 0]] + spread(nh, 3)))
         for p in G.family_tree(rnd, 1000):
-            p = with_hdronly(with_hookcl(with_skips(with_o2(p), 0.2), 0.3), 0.2)
+            p = with_literal(with_hdronly(with_hookcl(with_skips(with_o2(p), 0.2), 0.3), 0.2), 0.3)
             nh = G.count_hooks_upper(G.flatten(p))
             cf = [rcfg(), rcfg()]
             out.append((p, with_names(p, [dict(c, retry=False) for c in cf] if p.get("skips") else cf, 0.2), [[0, 0]] + spread(nh, 6) + rfaults(p, 2)[1:]))
@@ -317,7 +323,7 @@ def shared(chk, part="core"):
     """Run (or load) the shared stage for this tree / tier / seed.  Returns a dict:
        n_runs, tlc: [{module,cfg,distinct,generated,wall,coverage}], verdicts: {clause: [ {key, ...} ]},
        divergences, samples, design_violations"""
-    key = tree_key({"tier": chk.tier, "seed": chk.seed, "part": part, "v": 26})
+    key = tree_key({"tier": chk.tier, "seed": chk.seed, "part": part, "v": 27})
     os.makedirs(CACHE, exist_ok=True)
     # one entry per (part, tier, repository location): runs against a mutated copy must not evict /repo's entry
     prefix = "%s-%s-%s-" % (part, chk.tier, hashlib.sha256(REPO.encode()).hexdigest()[:8])
